@@ -7,6 +7,7 @@ import (
 	"fmt"
 	"runtime"
 	"strconv"
+	"strings"
 	"sync"
 	"time"
 )
@@ -44,6 +45,45 @@ type reqState struct {
 	readAt int // step at which its Write.GetLatest ran (-1)
 	setAt  int // step at which its Write.Set ran (-1)
 	waited bool
+	gid    int64 // goroutine running the request
+}
+
+// lockWaitStates are goroutine states that mean "waiting for a lock another goroutine
+// holds" - a request in one of them cannot reach its next storage call until somebody
+// else is released, so the scheduler need not sit out its no-park timeout.
+var lockWaitStates = map[string]bool{"sync.Mutex.Lock": true, "sync.RWMutex.Lock": true, "sync.RWMutex.RLock": true, "semacquire": true}
+
+// goroutineStates returns the wait state of every goroutine ("running", "select",
+// "sync.Mutex.Lock", ...), keyed by goroutine id.
+func goroutineStates() map[int64]string {
+	buf := make([]byte, 1<<18)
+	n := runtime.Stack(buf, true)
+	out := map[int64]string{}
+	for _, blk := range bytes.Split(buf[:n], []byte("\n\n")) {
+		if !bytes.HasPrefix(blk, []byte("goroutine ")) {
+			continue
+		}
+		line := blk
+		if i := bytes.IndexByte(blk, '\n'); i >= 0 {
+			line = blk[:i]
+		}
+		rest := line[len("goroutine "):]
+		sp := bytes.IndexByte(rest, ' ')
+		lb, rb := bytes.IndexByte(rest, '['), bytes.LastIndexByte(rest, ']')
+		if sp < 0 || lb < 0 || rb < lb {
+			continue
+		}
+		id, err := strconv.ParseInt(string(rest[:sp]), 10, 64)
+		if err != nil {
+			continue
+		}
+		st := string(rest[lb+1 : rb])
+		if c := strings.IndexByte(st, ','); c >= 0 {
+			st = st[:c] // "semacquire, 2 minutes"
+		}
+		out[id] = st
+	}
+	return out
 }
 
 type schedEvent struct {
@@ -68,8 +108,8 @@ type Scheduler struct {
 	// pins the connection, it looks.
 	ConnBusy func() bool
 	inHandle map[int]bool
-	Steps   []SchedStep
-	step    int
+	Steps    []SchedStep
+	step     int
 	// BlockTimeout: a released goroutine that neither parks nor finishes within this
 	// time is considered blocked inside a storage call.
 	BlockTimeout time.Duration
@@ -155,7 +195,8 @@ func (s *Scheduler) Run(fns []func(), choices []int) SchedResult {
 		started := make(chan struct{})
 		go func(fn func()) {
 			s.mu.Lock()
-			s.byG[goid()] = r
+			r.gid = goid()
+			s.byG[r.gid] = r
 			s.mu.Unlock()
 			close(started)
 			fn()
@@ -180,6 +221,9 @@ func (s *Scheduler) Run(fns []func(), choices []int) SchedResult {
 	// wait until every request is parked or done
 	settle := func(target int) bool {
 		deadline := time.After(s.BlockTimeout)
+		tick := time.NewTicker(500 * time.Microsecond)
+		defer tick.Stop()
+		lockWaits := 0
 		for {
 			if target >= 0 {
 				if st := s.reqs[target].state; st == "parked" || st == "done" {
@@ -207,6 +251,28 @@ func (s *Scheduler) Run(fns []func(), choices []int) SchedResult {
 			select {
 			case ev := <-s.events:
 				apply(ev)
+				lockWaits = 0
+			case <-tick.C:
+				// every request still running sits in a lock wait (twice in a row): they are
+				// blocked behind somebody who is parked; no need to wait for the timeout
+				states := goroutineStates()
+				all := true
+				for _, r := range s.reqs {
+					if (target >= 0 && r.idx != target) || r.state != "running" {
+						continue
+					}
+					if !lockWaitStates[states[r.gid]] {
+						all = false
+					}
+				}
+				if all {
+					lockWaits++
+				} else {
+					lockWaits = 0
+				}
+				if lockWaits >= 4 {
+					return false
+				}
 			case <-deadline:
 				return false
 			}
